@@ -471,6 +471,14 @@ class _FnAnalysis(object):
                     # an iterator over x: its "elements" are x's elements
                     return v.shallow()
                 return v.down()
+            if name in ("max", "min") and e.args:
+                # the largest / smallest element: one of the elements
+                if len(e.args) == 1:
+                    return self.val(e.args[0], env).down()
+                v = self.val(e.args[0], env)
+                for a in e.args[1:]:
+                    v = v.union(self.val(a, env))
+                return v
             if name == "deepcopy":
                 return VFRESH
             if name == "defaultdict":
